@@ -28,7 +28,9 @@ MANIFEST = dict(
          "every Popen, after stop() returned no child alive / no later Popen / every watcher finished or told to stop, "
          "children started = 1 + admitted restart calls - the at most one pending call (C18_restart_one_child, "
          "_after_stop, _count; proof by an inductive mutual-exclusion invariant); the pinned protocol is refuted by "
-         "witness runs (two children alive, orphan survives stop(), child alive when stop() returns). The models are tied "
+         "witness runs (two children alive, orphan survives stop(), child alive when stop() returns), and a watcher that "
+         "does not read its stop flag again after poll() is refuted (two restarts for one trigger); the watcher's poll(), "
+         "wait and flag re-check are separate model steps and poll() is a scheduling point of the harness. The models are tied "
          "to /repo by replaying, in the extracted debouncer model, the scheduler trace of every real run lock-step, and by "
          "outcome-level comparisons for the restart (non-overlapping operation sequences) and shell (paced runs) models; "
          "the property text is evaluated as an oracle on the public history / process-table log of every run.",
@@ -550,17 +552,21 @@ def rs_oracle(case, s, table):
     if s.deadlock is None and not s.livelock:
         n_spawn = len(spawns)
         lim = stop_call[-1] if stop_call else 10 ** 9
-        if case["interval"] == 0:
-            trig_done = len([e for e in s.events if e[1] == "ev-ret" and e[-1] <= lim])
-            trig_all = len([e for e in s.events if e[1] == "ev-call"])
-        else:
-            trig_done = trig_all = None
+        started = any(e[1] == "started" for e in s.events)
+        trig_all = len([e for e in s.events if e[1] == "ev-call"])        # debounced: batches <= events
         self_exits = len([p for p in table.procs if p.exit_cause == "self" and p.dead(s.clock)]) if case["restart_on_exit"] else 0
-        if trig_all is not None and any(e[1] == "started" for e in s.events):
-            if not (1 + trig_done <= n_spawn <= 1 + trig_all + self_exits):
-                bad.append(("number of child starts does not match 1 + triggering events (+ self-exits)",
-                            {"spawns": n_spawn, "events_before_stop": trig_done, "events": trig_all, "self_exits": self_exits},
-                            "1 + events returned before stop() <= spawns <= 1 + events + self-exits"))
+        # "restarts it once per triggering event or batch (and once when the child exits by itself)": every child
+        # start after the first is owed to an event (batch) or to a child that exited by itself
+        if started and n_spawn > 1 + trig_all + self_exits:
+            bad.append(("more restarts than triggering events plus children that exited by themselves",
+                        {"spawns": n_spawn, "events": trig_all, "self_exits": self_exits,
+                         "process_log": [f"{k} {pid} t={units(t)} {x}" for k, pid, t, _, x in table.log][:14]},
+                        "spawns <= 1 + events + self-exits"))
+        if started and case["interval"] == 0:
+            trig_done = len([e for e in s.events if e[1] == "ev-ret" and e[-1] <= lim])
+            if n_spawn < 1 + trig_done:
+                bad.append(("an event handled before stop() did not restart the child",
+                            {"spawns": n_spawn, "events_before_stop": trig_done}, "spawns >= 1 + events returned before stop()"))
         end = ev.get("end")
         if end is not None and stop_call is None and case["restart_on_exit"] and any(e[1] == "started" for e in s.events):
             last = max([units(e[2]) for e in table.log] + [units(p.exit_time) for p in table.procs if p.exit_time is not None
@@ -587,6 +593,14 @@ RS_DIRECTED = [
     {"kind": "restart", "interval": 2, "restart_on_exit": True,
      "children": [{"self_exit": None, "on_signal": "never"}] + [{"self_exit": None, "on_signal": "now"}] * 5,
      "ev": [["ev"], ["sleep", 1], ["ev"], ["sleep", 8], ["ev"]], "main": [["start"], ["sleep", 16], ["stop"]]},
+    # one event while the first watcher is in its poll loop, nobody exits by itself: exactly one restart
+    # (a watcher that was told to stop between its flag test and poll() must not restart)
+    {"kind": "restart", "interval": 0, "restart_on_exit": True,
+     "children": [{"self_exit": None, "on_signal": "now"}] * 6,
+     "ev": [["ev"]], "main": [["start"], ["sleep", 8], ["stop"]]},
+    {"kind": "restart", "interval": 0, "restart_on_exit": True,
+     "children": [{"self_exit": None, "on_signal": "now"}] * 6,
+     "ev": [["sleep", 2], ["ev"], ["sleep", 1], ["ev"]], "main": [["start"], ["sleep", 12]]},
 ]
 
 
